@@ -49,8 +49,16 @@ def direct(c):
     return out
 
 
+def f15_witness():
+    from ..gen_a import Node
+    src = Node('dict', ((('a', 1),), 'pickle'))
+    return Node('items', (), [Node('tile', (2,), [src])])
+
+
 def run(tier):
-    return model_a.run_a('C02', tier, WANT, n_quick=1500, n_thorough=40000, direct=direct)
+    # the known finding F15 is replayed on every run (its witness is the first case)
+    return model_a.run_a('C02', tier, WANT, n_quick=1500, n_thorough=40000, direct=direct,
+                         extra_nodes=[f15_witness()])
 
 
 def replay(payload):
